@@ -2,7 +2,7 @@
 From Coq Require Import String.
 From Coq Require Import ZArith List Bool.
 From LasV Require Import Lib.Base Lib.Layout Gen.GenHeaderLayout Gen.GenFormatBits Gen.GenDims Model.Las Model.LasSpec
-  Proofs.HeaderLen Proofs.VlrProofs Proofs.HeaderProofs Proofs.WriterProofs Proofs.RoundTripProofs.
+  Model.LasMulti Proofs.HeaderLen Proofs.VlrProofs Proofs.HeaderProofs Proofs.WriterProofs Proofs.RoundTripProofs Proofs.MultiProofs.
 Import ListNotations.
 Open Scope list_scope.
 Open Scope Z_scope.
@@ -79,7 +79,108 @@ Theorem C03_read_back : forall ap h vl fmt recs evl f h',
 Proof. exact read_write_roundtrip. Qed.
 Print Assumptions C03_read_back.
 
+(* several writers alive at the same time (the tiling pattern: one header object handed to all of them): whatever the interleaving of
+   their operations, each writer ends in the state its OWN operations lead to when run alone *)
+Theorem C03_interleave : forall ap ops sys i s,
+  nth_error sys i = Some s ->
+  nth_error (mrun ap sys ops) i = Some (fst (wrun ap s (proj i ops))).
+Proof. exact interleave_independent. Qed.
+Print Assumptions C03_interleave.
+
+(* hence each file of the ensemble is the one-shot file of its own points: its header carries stats_of exactly these points
+   (C03_count, C03_returns, C03_extrema, C03_file_length speak about file_of / stats_of) *)
+Theorem C03_ensemble : forall ap, ap_ok ap -> forall sys ops i h vl fmt chunks evl s0 s outs,
+  wopen h vl fmt = Ok s0 -> nth_error sys i = Some s0 ->
+  proj i ops = chunk_ops chunks evl ->
+  wrun ap s0 (chunk_ops chunks evl) = (s, outs) -> all_ok outs ->
+  exists s', nth_error (mrun ap sys ops) i = Some s' /\ file_of ap h vl fmt (concat chunks) evl = Ok (w_file s').
+Proof. exact ensemble_file. Qed.
+Print Assumptions C03_ensemble.
+
+(* non-vacuity of the ensemble statement: two writers from one header, operations interleaved; return numbers 6 and 7 of a legacy
+   format land in bins 6 and 7 of a 15-bin histogram *)
+Example C03_ensemble_example :
+  let h : assoc := [("version.major", VInt 1); ("version.minor", VInt 2); ("uuid", VBytes (repeat 0 16));
+                    ("system_identifier", VBytes [79; 84]); ("generating_software", VBytes []);
+                    ("point_format_id", VInt 0); ("point_size", VInt 20); ("scales[0]", VInt 4607182418800017408)]%string in
+  let apx := (fun s o x : Z => if x <? 0 then 0 else x) in
+  let r (x b : Z) := le_enc 4 x ++ repeat 0 10 ++ [b] ++ repeat 0 5 in
+  match wopen h [] 0 with
+  | Ok s0 =>
+      let sys := mrun apx [s0; s0] [(0%nat, WPoints [r 5 6] true); (1%nat, WPoints [r 9 7; r 2 7] true); (0%nat, WPoints [r 1 1] true);
+                                   (1%nat, WClose); (0%nat, WClose)] in
+      map (fun s => (s_count (w_st s), firstn 7 (s_ret (w_st s)))) sys
+  | Err _ => []
+  end = [(2, [1; 0; 0; 0; 0; 1; 0]); (2, [0; 0; 0; 0; 0; 0; 2])].
+Proof. vm_compute. reflexivity. Qed.
+
 Example C03_nonvacuous :
   let st := stats_of (fun s o x => if x <? 0 then 0 else x) 0 [] [le_enc 4 7 ++ repeat 0 10 ++ [2]; le_enc 4 3 ++ repeat 0 10 ++ [0]; le_enc 4 9 ++ repeat 0 10 ++ [0x0A]] in
   (s_count st, nth 0 (s_max st) 0, nth 0 (s_min st) 0, firstn 3 (s_ret st)) = (3, 9, 3, [0; 2; 0]).
 Proof. vm_compute. reflexivity. Qed.
+
+(* ------------------------------------------------------------------------------------------------------------------ *)
+(* The binary64 formula INSIDE the model (task AP): ap := ap64 = bits (fl (fl X * scale) + offset), Model/F64Bits.v,       *)
+(* no ap_ok / non-negativity hypothesis; the domain is good_scaling (finite positive scale, finite offset, finite images  *)
+(* of both ends of the int32 range) and records made of bytes.                                                          *)
+(* ------------------------------------------------------------------------------------------------------------------ *)
+From LasV Require Import Model.F64Bits Proofs.F64BitsProofs Proofs.ApInstance.
+
+(* the hypotheses of the generic theorems are satisfiable: a total wrapper of ap64 has them for every argument ... *)
+Theorem C03_ap_ok_inhabited : ap_ok ap64w /\ (forall s o x, 0 <= ap64w s o x).
+Proof. exact (conj ap64w_ok ap64w_nonneg). Qed.
+Print Assumptions C03_ap_ok_inhabited.
+
+(* ... which is ap64 itself on good scalings and int32 arguments, the only ones the model passes *)
+Theorem C03_ap64w_is_ap64 : forall s o x, good_scaling s o = true -> - 2 ^ 31 <= x <= 2 ^ 31 - 1 -> ap64w s o x = ap64 s o x.
+Proof. exact ap64w_eq. Qed.
+Print Assumptions C03_ap64w_is_ap64.
+
+(* C03_extrema for the binary64 formula (only the scaling of the axis concerned has to be good) *)
+Theorem C03_extrema_binary64 : forall fmt h r0 recs i, (i < 3)%nat ->
+  let s := aint h (axis_name "scales" i) in let o := aint h (axis_name "offsets" i) in
+  good_scaling s o = true -> forallb bytes_ok (r0 :: recs) = true ->
+  let xs := map (rec_coord i) (r0 :: recs) in
+  nth i (s_max (stats_of ap64 fmt h (r0 :: recs))) 0 = ap64 s o (zmax_list (rec_coord i r0) xs)
+  /\ nth i (s_min (stats_of ap64 fmt h (r0 :: recs))) 0 = ap64 s o (zmin_list (rec_coord i r0) xs)
+  /\ (forall x, In x xs -> x <= zmax_list (rec_coord i r0) xs) /\ In (zmax_list (rec_coord i r0) xs) xs
+  /\ (forall x, In x xs -> zmin_list (rec_coord i r0) xs <= x) /\ In (zmin_list (rec_coord i r0) xs) xs.
+Proof. exact extrema_binary64. Qed.
+Print Assumptions C03_extrema_binary64.
+
+(* what it means: in the binary64 order no stored point has an image above the header maximum or below the header minimum *)
+Theorem C03_extrema_binary64_dominate : forall fmt h r0 recs i, (i < 3)%nat ->
+  let s := aint h (axis_name "scales" i) in let o := aint h (axis_name "offsets" i) in
+  good_scaling s o = true -> forallb bytes_ok (r0 :: recs) = true ->
+  forall x, In x (map (rec_coord i) (r0 :: recs)) ->
+    f64_key (nth i (s_min (stats_of ap64 fmt h (r0 :: recs))) 0) <= f64_key (ap64 s o x)
+    /\ f64_key (ap64 s o x) <= f64_key (nth i (s_max (stats_of ap64 fmt h (r0 :: recs))) 0).
+Proof. exact extrema_binary64_dominate. Qed.
+Print Assumptions C03_extrema_binary64_dominate.
+
+(* C03_grow_app for the binary64 formula (this is where the monotonicity of x |-> fl (fl x * s) + o is used) *)
+Theorem C03_grow_app_binary64 : forall fmt h st a b, good_header h ->
+  a <> [] -> b <> [] -> forallb bytes_ok a = true -> forallb bytes_ok b = true ->
+  grow ap64 fmt h (grow ap64 fmt h st a) b = grow ap64 fmt h st (a ++ b).
+Proof. exact grow_app_binary64. Qed.
+Print Assumptions C03_grow_app_binary64.
+
+(* the domain is inhabited: scale 0.01 offset 0.0; scale 1e-9 offset -1e9 *)
+Example C03_good_scaling_examples :
+  good_scaling 0x3F847AE147AE147B 0 = true /\ good_scaling 0x3E112E0BE826D695 0xC1CDCD6500000000 = true.
+Proof. exact (conj good_scaling_centimetres good_scaling_nanometres). Qed.
+
+(* and the restriction is not an artefact: with scale 1e308 (overflow) the header minimum is not the image of the smallest X;
+   with scale -1.0 chunked statistics differ from one-shot statistics and the "maximum" is below the "minimum" *)
+Example C03_extrema_binary64_refuted :
+  let h := hdr_scaled 0x7FE1CCF385EBC8A0 0 in let r0 := le_enc 4 100 ++ repeat 0 16 in
+  good_scaling 0x7FE1CCF385EBC8A0 0 = false
+  /\ nth 0 (s_min (stats_of ap64 0 h [r0])) 0 <> ap64 0x7FE1CCF385EBC8A0 0 (zmin_list (rec_coord 0 r0) (map (rec_coord 0) [r0])).
+Proof. exact extrema_binary64_refuted. Qed.
+Example C03_grow_app_binary64_refuted :
+  let h := hdr_scaled 0xBFF0000000000000 0 in
+  let a := [le_enc 4 1 ++ repeat 0 16] in let b := [le_enc 4 2 ++ repeat 0 16] in
+  good_scaling 0xBFF0000000000000 0 = false
+  /\ grow ap64 0 h (grow ap64 0 h stats0 a) b <> grow ap64 0 h stats0 (a ++ b)
+  /\ f64_lt (nth 0 (s_max (stats_of ap64 0 h (a ++ b))) 0) (nth 0 (s_min (stats_of ap64 0 h (a ++ b))) 0) = true.
+Proof. exact grow_app_binary64_refuted. Qed.
